@@ -33,6 +33,9 @@ type Shard struct {
 	metaBaseIface metabase
 
 	metaBaseOpenErr error
+
+	// storageReadOnly tells how blobStor was opened last time.
+	storageReadOnly bool
 }
 
 // Option represents Shard's constructor option.
